@@ -13,7 +13,7 @@ UTC_OFFSET_RE = re.compile(UTC_OFFSET_PATTERN)
 
 
 def parse_timezone(s: str) -> datetime.timezone:
-    match = UTC_OFFSET_RE.match(s)
+    match = UTC_OFFSET_RE.fullmatch(s)
     if not match:
         raise ValueError(
             f"Time zone {s} must be either UTC or in format UTC[+-]hh:mm"
